@@ -225,6 +225,25 @@ theorem drops_and_link_evictions_safe (capK maxDepth : Nat) (ops : List (Op H K 
     (hrc : NoRecommit (Sys.new capK maxDepth) [] ops) : AllOK (Sys.new capK maxDepth) [] ops :=
   Sys.run_ok_drops_links _ [] (fun _ => 0) ops (SysInv0.init capK maxDepth) (fun _ => Nat.le_refl _) hne hio hrc
 
+/-- non-vacuity of `drops_and_link_evictions_safe`: link capacity 2; A ← B ← C ← D committed in ancestor order, A and B
+    write key 0, C writes key 1; `Remove(0)` after B's commit; the commits of C and D evict the links of A and B. All three
+    side conditions hold, the link cache DID evict, a `Remove` IS in the run, and the lookups answer: key 0 at B misses
+    (map dropped — a miss, never a wrong hit), key 1 at D hits C's value through the surviving links. -/
+def dropLinkHistory : List (Op Nat Nat Nat Nat) :=
+  [.blk 0 10 0, .bset 0 0 1, .bcommit 0, .blk 1 11 10, .bset 1 0 2, .bcommit 1, .srem 0,
+   .blk 2 12 11, .bset 2 1 5, .bcommit 2, .blk 3 13 12, .bcommit 3, .sget 0 11, .sget 1 13, .sget 0 13]
+
+example : ((Sys.new 200 2 : Sys Nat Nat Nat Nat).run dropLinkHistory).1.sc.entryEv = 0 ∧
+    0 < ((Sys.new 200 2 : Sys Nat Nat Nat Nat).run dropLinkHistory).1.sc.evictions ∧
+    (dropLinkHistory.any (fun op => op.isRemove)) = true ∧
+    InOrderRun (Sys.new 200 2 : Sys Nat Nat Nat Nat) [] dropLinkHistory ∧
+    NoRecommit (Sys.new 200 2 : Sys Nat Nat Nat Nat) [] dropLinkHistory ∧
+    ((Sys.new 200 2 : Sys Nat Nat Nat Nat).run dropLinkHistory).2.drop 12 = [.miss, .hit 5, .miss] := by
+  refine ⟨by decide, by decide, by decide, InOrderRun.of_b (by decide), by decide, by decide⟩
+
+example : AllOK (Sys.new 200 2 : Sys Nat Nat Nat Nat) [] dropLinkHistory :=
+  drops_and_link_evictions_safe 200 2 dropLinkHistory (by decide) (InOrderRun.of_b (by decide)) (by decide)
+
 /-- the same statement without `NoRecommit` -/
 def C06_combined_full : Prop :=
   ∀ (capK maxDepth : Nat) (ops : List (Op Nat Nat Nat Nat)),
